@@ -8,7 +8,10 @@ Never commits anything to /repo; refuses to start on a dirty /repo tree."""
 import json, os, subprocess, sys, time
 
 VERIF = os.path.dirname(os.path.dirname(os.path.abspath(__file__)))
-REPO = "/repo"
+# the matrix runs against a scratch worktree of /repo (created here, removed at the end) with its
+# own build output, so that /repo itself and the committed evidence are never touched
+REPO = os.environ.get("MATRIX_WT", "/tmp/matrix-wt")
+SCRATCH = os.environ.get("MATRIX_SCRATCH", "/tmp/matrix-scratch")
 EXTRA = {"C02-1": ["C05"], "C02-2": ["C04"], "C13-1": ["C14"], "C04-1": [], "C02b-1": ["C03", "C04", "C05"], "C02b-2": ["C03", "C04", "C05"]}
 
 
@@ -22,8 +25,14 @@ def clean():
 
 def main():
     labels = sys.argv[1:] or sorted(d for d in os.listdir(os.path.join(VERIF, "seeded")) if os.path.isdir(os.path.join(VERIF, "seeded", d)))
+    if not os.path.isdir(REPO):
+        r = sh("git", "-C", "/repo", "worktree", "add", "--detach", REPO, "HEAD")
+        if r.returncode != 0:
+            sys.exit("cannot create scratch worktree: " + r.stderr)
     if not clean():
-        sys.exit("refusing: /repo working tree is not clean")
+        sys.exit("refusing: scratch worktree is not clean")
+    os.makedirs(SCRATCH, exist_ok=True)
+    env = dict(os.environ, VERIF_REPO=REPO, VERIF_SCRATCH=SCRATCH)
     out_path = os.path.join(VERIF, "seeded", "MATRIX.json")
     matrix = json.load(open(out_path)) if os.path.exists(out_path) else {}
     for label in labels:
@@ -40,7 +49,7 @@ def main():
         try:
             for pid in [prop] + EXTRA.get(label, []):
                 t0 = time.time()
-                c = sh(os.path.join(VERIF, "check"), pid, "--tier", "quick", timeout=3600, cwd=VERIF)
+                c = sh(os.path.join(VERIF, "check"), pid, "--tier", "quick", timeout=3600, cwd=VERIF, env=env)
                 vio = [l for l in c.stdout.splitlines() if l.startswith("VIOLATION")]
                 mach = [l for l in c.stdout.splitlines() if l.startswith("MACHINERY")]
                 row["checks"][pid] = {"exit": c.returncode, "violations": len(vio), "first": (vio[0][:400] if vio else None), "machinery": mach[:2], "wall_s": round(time.time() - t0)}
@@ -53,6 +62,9 @@ def main():
         matrix[label] = row
         json.dump(matrix, open(out_path, "w"), indent=1, sort_keys=True)
     print(json.dumps({k: v.get("detected_by", v.get("error")) for k, v in matrix.items()}, indent=1))
+    if not os.environ.get("MATRIX_KEEP"):
+        sh("git", "-C", "/repo", "worktree", "remove", "--force", REPO)
+        sh("rm", "-rf", SCRATCH)
 
 
 if __name__ == "__main__":
